@@ -26,6 +26,23 @@ def fd_table():
     return out
 
 
+def my_children():
+    """(pid, state) of every process whose parent is this one - found in /proc, not through any bookkeeping."""
+    me, out = os.getpid(), []
+    for d in os.listdir("/proc"):
+        if not d.isdigit():
+            continue
+        try:
+            with open(f"/proc/{d}/stat") as f:
+                data = f.read()
+            rest = data[data.rindex(")") + 2:].split()
+            if int(rest[1]) == me:
+                out.append((int(d), rest[0]))
+        except (OSError, ValueError, IndexError):
+            pass
+    return out
+
+
 def proc_state(pid):
     try:
         with open(f"/proc/{pid}/stat") as f:
@@ -223,6 +240,8 @@ async def main():
         obs["body_outcome"] = "raised:" + type(e).__name__ + ":" + str(e)[:100]
     # synchronously, before the loop gets another turn: the property speaks of the moment the context is left
     obs["states_at_exit"] = {str(p): proc_state(p) for p in obs["pids"]}
+    comp_pid = companion.get("pid") if companion else None
+    obs["unknown_children_at_exit"] = [[p_, s_] for p_, s_ in my_children() if p_ not in obs["pids"] and p_ != comp_pid]
     at_exit = fd_table()
     obs["fd_new_at_exit"] = sorted(v for k, v in at_exit.items() if k not in obs["fds_before"])
     marks["exit_end"] = time.monotonic()
